@@ -245,6 +245,26 @@ MLSX_LINES = ["Size=12;Create=20010101000000;Modify=20010101000000;Type=file; a.
 
 
 _NUM = re.compile(rb"\d+")
+_WIN_NAME = re.compile(r"^\S+\s+\S+\s+[AP]M\s+(?:<DIR>|[\d,]+)\s*(.*?)\s*$")
+_UNIX_NAME = re.compile(r"^\S+\s+\S+\s+\S+\s+\S+\s+\S+\s+\S+\s+\S+\s+\S+(?: (.*))?$")
+
+
+def _line_name(family, ln):
+    """the name field of a listing line as a reader of the format would take it (None if the
+    line does not have that shape); 'x -> y' names x"""
+    try:
+        if family == "mlsx":
+            return ln.partition(" ")[2]
+        if family == "unix":
+            m = _UNIX_NAME.match(ln)
+            if not m:
+                return None
+            name = m.group(1) or ""  # eight columns and nothing after them: the name is empty
+            return name.split(" -> ")[0] if ln[:1] == "l" else name
+        m = _WIN_NAME.match(ln)
+        return m.group(1) if m else None
+    except Exception:
+        return None
 
 
 def mutate(rnd, line):
@@ -257,6 +277,10 @@ def mutate(rnd, line):
             m = rnd.choice(fields)
             rep = rnd.choice([b"0", b"00", b"99", b"-1", b"4294967296", b"9" * 10, b"2" * 20, b"1" * 40, m.group() * 6, b"9" * 400])
             b[m.start() : m.end()] = rep
+    if b" -> " in bytes(b) and rnd.random() < 0.4:
+        # grammar-aware: the link arrow of a symlink entry goes missing / loses its target / its blanks
+        head, _, tail = bytes(b).partition(b" -> ")
+        b = bytearray(rnd.choice([head, head + b" -> ", head + b"->" + tail, head + b" -> " + tail + b" -> x", head + b" ->", b"l" + head[1:]]))
     for _ in range(rnd.randint(0, 3)):
         k = rnd.random()
         if not b:
@@ -520,16 +544,19 @@ def run_client_case(case):
                     ok_types = isinstance(r, list) and all(isinstance(p, pathlib.PurePosixPath) and isinstance(i, dict) for p, i in r)
                     if not ok_types:
                         viol.append({"clause": "client-returns-ill-typed-value", "subject": kind, "detail": f"list() returned {r!r}"[:300]})
-                    # every non-empty line is accounted for: yielded, or a '.' / '..' entry
-                    dots = 0
-                    for ln in nonempty:
-                        try:
-                            nm, _inf = (client.parse_mlsx_line if case["cmd"] == "MLSD" else client.parse_list_line)(ln.encode("latin-1"))
-                            if str(nm) in (".", ".."):
-                                dots += 1
-                        except Exception:
-                            pass
-                    if isinstance(r, list) and len(r) + dots < len(nonempty):
+                    # every non-empty line is accounted for: yielded, or a '.' / '..' entry (judged
+                    # from the text of the line, not by asking the client's own parser)
+                    def _is_dot(nm):
+                        # ('./', './/', '../' ... are the same entries to a path library)
+                        return nm is not None and nm.strip() != "" and str(pathlib.PurePosixPath(nm.strip())) in (".", "..")
+
+                    dots = sum(1 for ln in nonempty if _is_dot(_line_name(case["family"], ln)))
+                    # (a line whose name field is empty comes out of the parsers as PurePosixPath("") == ".",
+                    # and is skipped like a '.' entry: recorded as a known finding, matched by its subject)
+                    empties = sum(1 for ln in nonempty if _line_name(case["family"], ln) is not None and _line_name(case["family"], ln).strip() == "")
+                    if isinstance(r, list) and len(r) + dots < len(nonempty) and len(r) + dots + empties >= len(nonempty):
+                        viol.append({"clause": "listing-line-dropped", "subject": f"{case['family']}:empty-name", "detail": f"{len(nonempty)} non-empty lines were sent, list() yielded {len(r)} entries (+{dots} dot entries) and raised nothing; the dropped line(s) have an empty name field: {case['lines']!r}"[:500]})
+                    elif isinstance(r, list) and len(r) + dots < len(nonempty):
                         viol.append({"clause": "listing-line-dropped", "subject": case["family"], "detail": f"{len(nonempty)} non-empty lines were sent, list() yielded {len(r)} entries (+{dots} dot entries) and raised nothing: {case['lines']!r}"[:500]})
                 elif st == "exc":
                     if not isinstance(r, (ValueError, aioftp.StatusCodeError, ConnectionError)):
